@@ -61,7 +61,7 @@ NumCompositionColsV(t, Fixed) == IF Fixed THEN Max2(1, CompositionDegree(t) \div
                                  ELSE Max2(1, (CompositionDegree(t) + N(t) - 1) \div N(t))
 NumCompositionCols(t) == NumCompositionColsV(t, TRUE)
 
-\* ---- the assertions of a statement (the first t.nasserts of six templates covering every assertion kind; they never
+\* ---- the assertions of a statement (the first t.nasserts of seven templates covering every assertion kind; they never
 \* name a common cell) and the cells they name ---------------------------------------------------------------
 AsrT(kind, col, first, stride, count) == [kind |-> kind, col |-> col, first |-> first, stride |-> stride, count |-> count]
 AssertTemplates(t) ==
@@ -72,7 +72,9 @@ AssertTemplates(t) ==
            AsrT("sequence", 2 % w, 2, 4, n \div 4),
            IF w >= 4 THEN AsrT("sequence", 3, 0, 2, n \div 2) ELSE AsrT("single", 0, 4, 0, 1),
            \* a single assertion on the step "stride + first step" of the periodic one (another column): the two must not share a divisor
-           IF w >= 2 THEN AsrT("single", w - 1, 5, 0, 1) ELSE AsrT("single", 0, 3, 0, 1) >>
+           IF w >= 2 THEN AsrT("single", w - 1, 5, 0, 1) ELSE AsrT("single", 0, 3, 0, 1),
+           \* a second assertion with the divisor of the first one (same step, another column): one divisor group, two coefficients
+           IF w >= 2 THEN AsrT("single", 1, 0, 0, 1) ELSE AsrT("single", 0, 8, 0, 1) >>
 Asserts(t) == SubSeq(AssertTemplates(t), 1, t.nasserts)
 \* the statement as the conformance harness instantiates it: a column that carries a periodic assertion has to repeat, so
 \* it is made a period-two column (constraint degree 1, no periodic factor); everything derived from degrees follows this
@@ -119,7 +121,8 @@ Admissible(t) ==
     /\ \A i \in 1..t.width : t.degs[i] >= 1 /\ MinBlowup(t, i) <= B(t)          \* degree 1 .. blowup + 1
     /\ \A c \in DOMAIN t.cycles : IsPow2(t.cycles[c]) /\ t.cycles[c] >= 2 /\ t.cycles[c] <= N(t)
     /\ t.k >= 1 /\ t.k <= N(t) \div 2 + 1 /\ t.k <= MaxExemptions(t)
-    /\ t.nasserts >= 1
+    /\ t.nasserts >= 1 /\ t.nasserts <= 7
+    /\ (t.nasserts >= 7 /\ t.width = 1 => t.ln >= 4)                            \* with one column the seventh template needs step 8
     /\ t.meta >= 0 /\ t.meta <= 65535                                           \* TraceInfo::MAX_META_LENGTH
     /\ t.lag \in {0, 1} /\ (t.lag = 1 => NAux(t) >= 1)                          \* the context wants one auxiliary constraint
     /\ TotalWidth(t) <= 255 /\ t.auxr >= 0 /\ t.auxr <= 255 /\ (AuxW(t) = 0 => t.auxr = 0)
